@@ -307,6 +307,31 @@ pub fn boundary_spaces(n: usize) -> Vec<Space> {
     v
 }
 
+/// Non-ASCII letters whose code point truncated to one byte is a character the lexer dispatches
+/// on (`\n` blank `"` `%` `&` `'` `(` `)` `*` `,` `.` `/` `;` `=`), with a few ASCII companions:
+/// a comparison made on a truncated code point would take them for that character.
+pub const ALIAS_ATOMS: &[&str] = &[
+    "\u{40a}", "\u{420}", "\u{422}", "\u{425}", "\u{426}", "\u{427}", "\u{428}", "\u{429}", "\u{42a}", "\u{42c}",
+    "\u{42e}", "\u{42f}", "\u{43b}", "\u{43d}", " ", "a", "%m", "&v", ";", "1",
+];
+
+pub fn alias_spaces(n: usize) -> Vec<Space> {
+    let mut v = Vec::new();
+    let mut ctx: Vec<(&str, &str)> = Vec::new();
+    for (p, closers) in SEEDS {
+        ctx.push((p, closers[closers.len() - 1]));
+    }
+    for (p, s) in crate::templates::SCANNER_TEMPLATES {
+        if !ctx.contains(&(*p, *s)) {
+            ctx.push((p, s));
+        }
+    }
+    for (i, (p, s)) in ctx.iter().enumerate() {
+        v.push(Space::seeded(&format!("alias{i:02}[{}..{}]", p.escape_debug(), s.escape_debug()), p, s, ALIAS_ATOMS, n));
+    }
+    v
+}
+
 fn sp(name: &str, atoms: &[&str], n: usize) -> Space {
     Space::new(name, atoms, n)
 }
@@ -377,6 +402,7 @@ pub fn sigma_spaces(which: &[&str], tier: Tier) -> Vec<Space> {
                 v.extend(seeded_spaces(if q { 3 } else { 4 }));
                 v.extend(boundary_spaces(if q { 3 } else { 4 }));
                 v.extend(expr_spaces(if q { 3 } else { 4 }));
+                v.extend(alias_spaces(if q { 3 } else { 4 }));
             }
             other => panic!("unknown space {other}"),
         }
